@@ -21,7 +21,7 @@ def connected_nodes(network: Network, node: str) -> list[str]:
 def node_admittance_matrix(network: Network, node_index_mapper: map.NetworkMapper = map.default_node_mapper) -> np.ndarray:
     def node_matrix_element(i_label:str, j_label:str) -> complex:
         if i_label == j_label:
-            return sum(b.element.Y for b in branches if i_label in (b.node1, b.node2) and np.isfinite(b.element.Y))
+            return sum(b.element.Y for b in branches if i_label in (b.node1, b.node2) and b.node1 != b.node2 and np.isfinite(b.element.Y))
         return -sum(b.element.Y for b in branches if set((b.node1, b.node2)) == set((i_label, j_label)) and np.isfinite(b.element.Y))
     node_mapping = node_index_mapper(network)
     branches = [b for b in network.branches if not is_ideal_voltage_source(b.element)]
